@@ -43,7 +43,7 @@ WEIGHTS = {
 TOKENS = ("t1", "t2")
 WEIGHTS["tokens"] = [("add", 12), ("new", 6), ("commit", 10), ("flush", 6), ("rollback", 4), ("expunge", 5), ("expire", 5),
                      ("get", 12), ("gett", 18), ("query", 6), ("queryt", 10), ("refresh", 3), ("delete", 3), ("close", 2),
-                     ("expunge_all", 1)]
+                     ("expunge_all", 1), ("touch", 9), ("pickle", 8)]
 
 
 # several flushes inside one SAVEPOINT touching the same instance (update, then delete, then a
@@ -61,7 +61,7 @@ def pick(rng, profile, npool):
         return (k, rng.choice(PKS), rng.choice(TOKENS))
     if k == "queryt":
         return (k, rng.choice(TOKENS), int(rng.random() < 0.3))
-    if k in ("add", "delete", "expunge", "expire", "mtd", "merge", "refresh"):
+    if k in ("add", "delete", "expunge", "expire", "mtd", "merge", "refresh", "touch", "pickle"):
         return (k, rng.randrange(npool))
     if k in ("mt", "setpk"):
         return (k, rng.randrange(npool), rng.choice(PKS))
@@ -71,7 +71,7 @@ def pick(rng, profile, npool):
 
 
 def gen_random_case(rng, profile, nops, eoc):
-    env = L.Env(eoc=eoc)
+    env = L.Env(eoc=eoc, with_data=profile == "tokens")
     ops, recs = [], []
     try:
         for _ in range(rng.randint(1, 3)):
@@ -79,6 +79,16 @@ def gen_random_case(rng, profile, nops, eoc):
             ops.append(op)
             recs.append(env.apply(op))
         for _ in range(nops):
+            if profile == "tokens" and rng.random() < 0.12:
+                # an instance leaves the Session, possibly travels through pickle, comes back
+                # with add(), is changed and flushed
+                i = rng.randrange(len(env.pool))
+                macro = [("expunge", i)] + ([("pickle", i)] if rng.random() < 0.7 else []) + [("add", i)]
+                macro += ([("touch", i)] if rng.random() < 0.8 else []) + [("flush",)]
+                for op in macro:
+                    ops.append(op)
+                    recs.append(env.apply(op))
+                continue
             op = pick(rng, profile, len(env.pool))
             ops.append(op)
             recs.append(env.apply(op))
